@@ -12,7 +12,7 @@ import random
 from collections import Counter
 from harness import common, edits, export
 
-EXTRA_PROPS_FILES = ["Scfg/Props/C14Join.lean", "Scfg/Props/C14Ctl.lean"]
+EXTRA_PROPS_FILES = ["Scfg/Props/C14Join.lean", "Scfg/Props/C14Ctl.lean", "Scfg/Props/C14Paths.lean"]
 LEVEL = "proof"
 
 
